@@ -254,6 +254,47 @@ func runC16(r *vhlib.Run) {
 		}
 		enc(p, modes[rng.Intn(3)], nil, "len2")
 	}
+	// 2b. self-location sweep: every two-byte payload prefix (all 65536) followed by a
+	// pseudo-random tail of 0, 5 or 18 bytes; alone and after a preceding block. Only the
+	// signature positions and ReverseSearch are checked here (cheap: no decoders).
+	{
+		pre, _, _, _ := metaEncode([][]byte{[]byte("preceding block")}, meta.FinalNil)
+		tails := [][]byte{nil, vhlib.RandBytes(rng, 5), vhlib.RandBytes(rng, 18), vhlib.RandBytes(rng, 18)}
+		for i := 0; i < 65536*len(tails); i++ {
+			tail := tails[i>>16]
+			p := append([]byte{byte(i), byte(i >> 8)}, tail...)
+			mode := modes[(i+i>>16)%3]
+			encb, starts, _, err := metaEncode([][]byte{p}, mode)
+			r.Evals++
+			r.Hist["rs-sweep"]++
+			if err != nil || len(starts) == 0 {
+				continue
+			}
+			want := starts[len(starts)-1]
+			rp := map[string]interface{}{"payload": vhlib.Hex(p), "mode": int(mode)}
+			if rs := meta.ReverseSearch(encb); rs != want {
+				r.Violate("reverse-search", fmt.Sprintf("rs=%d want=%d", rs, want), rp)
+				break
+			}
+			both := append(append([]byte{}, pre...), encb...)
+			if rs := meta.ReverseSearch(both); rs != len(pre)+want {
+				r.Violate("reverse-search", fmt.Sprintf("after a preceding block: rs=%d want=%d", rs, len(pre)+want), rp)
+				break
+			}
+			for k := 1; k+4 <= len(encb); k++ {
+				isStart := false
+				for _, st := range starts {
+					if st == k {
+						isStart = true
+					}
+				}
+				if m := binary.LittleEndian.Uint32(encb[k:]); m&0xfffe3fc6 == 0x05860004 && !isStart {
+					r.Violate("magic-position", fmt.Sprintf("i=%d inside a block", k), rp)
+					break
+				}
+			}
+		}
+	}
 	// 3. single-block payloads of low / high bit weight, lengths 0..31
 	nw := 600
 	if !r.Quick() {
